@@ -63,10 +63,23 @@ def rand_history(seed):
         if cont is not None and a.get_style(fam, "verif_homonym") is None and b.get_style(fam, "verif_homonym") is None:
             a.insert_style(Style(fam, name="verif_homonym"))
             cont.append(Style(fam, name="verif_homonym"))
+    forced = []
+    if rng.random() < 0.2:
+        # names a later helper will want for itself are already taken (by a common style / a bare style)
+        from odfdo import Style
+
+        if doc.get_type() == "spreadsheet" and doc.get_style("table", "ta_0") is None:
+            doc.insert_style(Style("table", name="ta_0"))
+            forced.append("set_table_displayed")
+        if doc.get_style("paragraph", "odfdopagebreak") is None:
+            doc.insert_style(Style("paragraph", name="odfdopagebreak") if rng.random() < 0.5 else Style("paragraph", name="odfdopagebreak", bold=True))
+            forced.append("add_page_break_style")
     events = []
-    burst = rng.random() < 0.25   # many unnamed automatic styles of one family (two-digit indexes)
+    burst = rng.random() < 0.25 and not forced   # many unnamed automatic styles of one family (two-digit indexes)
     for step in range(rng.randint(2, 6) if not burst else 14):
         kind = "insert" if burst else rng.choice(["insert"] * 6 + ["merge", "set_table_displayed", "add_page_break_style"])
+        if forced and step < len(forced):
+            kind = forced[step]
         ev = {"op": {"op": kind}, "src": src}
         ev["pre"], ev["pre_other"] = sl.project(doc), sl.project(other)
         if kind == "insert":
@@ -103,6 +116,8 @@ def rand_history(seed):
         else:
             try:
                 doc.add_page_break_style()
+                st = doc.get_style("paragraph", "odfdopagebreak")
+                ev["pagebreak_ok"] = st is not None and (st.get_properties("paragraph") or {}).get("fo:break-after") == "page"
             except Exception as ex:  # noqa: BLE001
                 ev["exc"] = repr(ex)[:200]
         ev["post"], ev["post_other"] = sl.project(doc), sl.project(other)
